@@ -154,6 +154,8 @@ class NFA:
         self.n = 0
         self.eps = {}
         self.ch = {}
+        self.chgrp = {}      # char-consuming state -> tuple of enclosing capture-group numbers (outermost first)
+        self.gstack = []
 
     def new(self):
         self.n += 1
@@ -170,6 +172,7 @@ def build(nfa, nodes, flags, cur):
         if cs is not None:
             t = nfa.new()
             nfa.ch[cur] = (frozenset(cs), t)
+            nfa.chgrp[cur] = tuple(nfa.gstack)
             cur = t
         elif op is SUBPATTERN:
             g = arg[0]
@@ -179,7 +182,11 @@ def build(nfa, nodes, flags, cur):
                 a = nfa.new()
                 nfa.eps[cur].append(('tag', ('open', g), a))
                 cur = a
+            if g is not None:
+                nfa.gstack.append(g)
             cur = build(nfa, arg[3], flags, cur)
+            if g is not None:
+                nfa.gstack.pop()
             if g is not None:
                 b = nfa.new()
                 nfa.eps[cur].append(('tag', ('close', g), b))
